@@ -197,8 +197,11 @@ impl SubCheck for WitnessesScheduled {
         p.max_inits = 2;
         // half of the graphs are chains of diamonds (t -> l, r -> b): with blocks of one state the
         // two workers evaluate l and r side by side and reach the join b together
-        let diamonds = (1usize..=3, proptest::collection::vec(any::<u8>(), 12), proptest::collection::vec(prop_oneof![2 => Just(Exp::Eventually), 1 => Just(Exp::Always), 1 => Just(Exp::Sometimes)], 1..=3), 0usize..=2).prop_map(|(k, masks, exps, tail)| {
-            let n = 3 * k + 1 + tail;
+        let diamonds = (1usize..=3, proptest::collection::vec(any::<u8>(), 12), proptest::collection::vec(prop_oneof![2 => Just(Exp::Eventually), 1 => Just(Exp::Always), 1 => Just(Exp::Sometimes)], 1..=3), 0usize..=2, 0u8..3).prop_map(|(k, masks, exps, tail, lone)| {
+            // `lone` > 0: a second initial state without successors (a path that ends at once), listed
+            // before or after the first one - one worker records its verdicts while the other is
+            // still on its way through the diamonds
+            let n = 3 * k + 1 + tail + usize::from(lone > 0);
             let mut edges: Vec<Vec<Option<u32>>> = vec![vec![]; n];
             for d in 0..k {
                 let t = 3 * d;
@@ -206,11 +209,17 @@ impl SubCheck for WitnessesScheduled {
                 edges[t + 1] = vec![Some(t as u32 + 3)];
                 edges[t + 2] = vec![Some(t as u32 + 3)];
             }
-            for i in 3 * k..n - 1 {
+            let chain_end = 3 * k + tail;
+            for i in 3 * k..chain_end {
                 edges[i] = vec![Some(i as u32 + 1)];
             }
+            let inits = match lone {
+                0 => vec![0],
+                1 => vec![0, n as u32 - 1],
+                _ => vec![n as u32 - 1, 0],
+            };
             let props = exps.iter().enumerate().map(|(j, e)| PropDesc { exp: *e, on: (0..n as u32).filter(|s| (masks[*s as usize % masks.len()] >> j) & 1 == 1).collect() }).collect();
-            GraphDesc { n: n as u32, inits: vec![0], edges, oob: Default::default(), props, panic_at: None, shape: "Diamonds".to_string(), yield_in_model: true, slow_us: 0 }
+            GraphDesc { n: n as u32, inits, edges, oob: Default::default(), props, panic_at: None, shape: "Diamonds".to_string(), yield_in_model: true, slow_us: 0 }
         });
         (prop_oneof![1 => graph_strategy(p), 2 => diamonds.boxed()], prop_oneof![Just(Strat::Bfs), Just(Strat::Dfs), Just(Strat::OnDemand)], 2usize..=3, 1usize..=2, proptest::collection::vec(any::<u8>(), 20..200))
             .prop_map(|(g, strat, threads, block, schedule)| SchedCase { g, strat, threads, block, stop: Stop::Exhaust, schedule, yield_in_model: true, real_threads: false })
